@@ -32,7 +32,12 @@ from collections import OrderedDict, defaultdict
 
 import numpy as np
 
-from soprano.utils import customize_warnings, minimum_supcell, supcell_gridgen
+from soprano.utils import (
+    _reduce_to_cell,
+    customize_warnings,
+    minimum_supcell,
+    supcell_gridgen,
+)
 
 customize_warnings()
 
@@ -470,14 +475,15 @@ class AtomSelection:
         if periodic and any(atoms.get_pbc()):
             # Get the range
             max_r = np.linalg.norm(np.array(abc1) - abc0)
-            scell_shape = minimum_supcell(
-                max_r, latt_cart=atoms.get_cell(), pbc=atoms.get_pbc()
-            )
-            grid_frac, grid = supcell_gridgen(atoms.get_cell(), scell_shape)
-            if scaled:
-                pos = pos[:, None, :] + grid_frac[None, :, :]
-            else:
-                pos = pos[:, None, :] + grid[None, :, :]
+            # Fractional coordinates live on the unit lattice
+            latt = np.eye(3) if scaled else atoms.get_cell()
+            scell_shape = minimum_supcell(max_r, latt_cart=latt, pbc=atoms.get_pbc())
+            grid_frac, grid = supcell_gridgen(latt, scell_shape)
+            # Start from the copy of each atom closest to the middle of the box,
+            # so that the grid built around the origin reaches the whole box
+            mid = (np.array(abc0) + np.array(abc1)) / 2.0
+            dpos, pos_shifts = _reduce_to_cell(pos - mid, latt, atoms.get_pbc())
+            pos = (dpos + mid)[:, None, :] + grid[None, :, :]
 
         where_i = np.where(np.all(pos > abc0, axis=-1) & np.all(pos < abc1, axis=-1))[
             :2
@@ -487,7 +493,7 @@ class AtomSelection:
 
         sel = AtomSelection(atoms, sel_i)
         if periodic:
-            sel.set_array("cell_indices", grid_frac[where_i[1]])
+            sel.set_array("cell_indices", grid_frac[where_i[1]] - pos_shifts[where_i[0]])
 
         return sel
 
@@ -517,14 +523,16 @@ class AtomSelection:
         # Do we need periodic copies?
         if periodic and any(atoms.get_pbc()):
             # Get the range
-            r_bounds = minimum_supcell(
-                r, latt_cart=atoms.get_cell(), pbc=atoms.get_pbc()
+            # Fractional coordinates live on the unit lattice
+            latt = np.eye(3) if scaled else atoms.get_cell()
+            r_bounds = minimum_supcell(r, latt_cart=latt, pbc=atoms.get_pbc())
+            grid_frac, grid = supcell_gridgen(latt, r_bounds)
+            # Start from the copy of each atom closest to the center, so that
+            # the grid built around the origin reaches the whole sphere
+            dpos, pos_shifts = _reduce_to_cell(
+                pos - np.array(center), latt, atoms.get_pbc()
             )
-            grid_frac, grid = supcell_gridgen(atoms.get_cell(), r_bounds)
-            if scaled:
-                pos = pos[:, None, :] + grid_frac[None, :, :]
-            else:
-                pos = pos[:, None, :] + grid[None, :, :]
+            pos = (dpos + np.array(center))[:, None, :] + grid[None, :, :]
 
         where_i = np.where(np.linalg.norm(pos - center, axis=-1) <= r)
 
@@ -532,7 +540,7 @@ class AtomSelection:
 
         sel = AtomSelection(atoms, sel_i)
         if periodic:
-            sel.set_array("cell_indices", grid_frac[where_i[1]])
+            sel.set_array("cell_indices", grid_frac[where_i[1]] - pos_shifts[where_i[0]])
 
         return sel
 
